@@ -176,6 +176,7 @@ func run(r *mon.Run) {
 			wg.Add(1)
 			go func(gi int) {
 				defer wg.Done()
+				defer r.Recover("concurrent workload")
 				for rounds := 0; rounds < 4; rounds++ {
 					for k := gi; k < len(jobs); k += 8 {
 						j := jobs[(k+rounds*5)%len(jobs)]
